@@ -16,12 +16,14 @@ from ..attrib import attribute
 ID = 'C03'
 LEVEL = 'exploration'
 EXHAUSTIVE = {'quick': True, 'thorough': True}
-RULE = ('exhaustive part: every argument with 0-1 premises whose sentences have depth <= 1 over atoms {A,B} and the 8 '
-        'truth-functional operators (930 arguments; thorough adds every premise-free argument with a conclusion of '
-        'depth <= 2: 5462) x every registered logic, built with default options and no step limit (guard 10000); '
+RULE = ('exhaustive part: every argument with 0-1 premises whose sentences are atoms {A,B}, depth-1 compounds of the 8 '
+        'truth-functional operators, or negations of the binary ones (54 sentences, 2970 arguments) x every base logic and K '
+        '(quick tier: the modal extensions, which share their propositional rules with the base, get half of the 930 depth-1 '
+        'arguments; thorough: all 57 logics get all 2970 plus every premise-free argument with a conclusion of depth <= 2), built with default options and no step limit (guard 10000); '
         'random part: Hypothesis arguments with <= 4 atoms, depth <= 3, <= 3 premises (step guard 600 => inconclusive) x {group optim} x {rank optim}. '
         'Oracle: reference truth-table enumeration (valid iff no assignment designates all premises and not the '
-        'conclusion) and: completed, not premature, no quit-flag node. Non-trivial = the argument contains a binary '
+        'conclusion); branch-level exactness (an assignment refutes the argument iff it satisfies all nodes of some open '
+        'branch iff it satisfies the literals of some open branch); completed, not premature, no quit-flag node. Non-trivial = the argument contains a binary '
         'operator; distinct by (logic, argument, options).')
 ASSUMPTIONS = [
     'vf/refsem.py tables are the documented ones (C07 decides that separately)',
@@ -50,14 +52,33 @@ def depth2(atoms=ATOMS2):
     return out
 
 
-def exhaustive_args(tier):
-    d1 = depth1()
-    for c in d1:
-        yield (), c
-        for p in d1:
-            yield (p,), c
+def depth1_negated(atoms=ATOMS2):
+    "depth-1 sentences plus the negations of the binary ones (so that every Negated... rule is reached from the trunk)"
+    d1 = depth1(atoms)
+    return d1 + [A.neg(s) for s in d1 if s[0] == 'O' and A.OPS[s[1]] == 2]
+
+
+def exhaustive_args(tier, logic):
+    """Base logics (and every logic in the thorough tier): 0-1 premises and conclusion from the 54-sentence
+    universe (2970 arguments).  Modal extensions in the quick tier share their propositional rules with the base
+    logic; they get every second argument of the 930-argument depth-1 universe."""
+    full = tier == 'thorough' or R.frame_of(logic) is None or logic == 'K'
+    if full:
+        u = depth1_negated()
+        for c in u:
+            yield (), c
+            for p in u:
+                yield (p,), c
+    else:
+        d1 = depth1()
+        i = 0
+        for c in d1:
+            for p in [None] + d1:
+                i += 1
+                if i % 2:
+                    yield (() if p is None else (p,)), c
     if tier == 'thorough':
-        seen = set(d1)
+        seen = set(depth1_negated())
         for c in depth2():
             if c not in seen:
                 yield (), c
@@ -103,6 +124,35 @@ def check_case(case):
         return out, info
     if prover.any_quit_flag(tab):
         out.append((f'C03|quit-flag|{fam}', f'{prover.case_str(case)}: a limit flag node appears'))
+    # branch-level exactness: a valuation refutes the argument iff it satisfies every node of some open branch
+    # iff it satisfies the literals of some open branch (lost or spurious cases are found even when another open
+    # branch masks them in the verdict)
+    atoms = R.prop_atoms([*prem, con])
+    if len(atoms) <= 4 and not out:
+        from itertools import product as _product
+        from ..attrib import satisfied
+        D = R.designated(logic)
+        branches = []
+        for b in tab.open:
+            nodes = [(A.from_lib(n['sentence']), n.get('designated')) for n in b if n.get('sentence') is not None]
+            lits = [(x, d) for x, d in nodes if x[0] in 'AP' or (x[0] == 'O' and x[1] == 'Negation' and x[2][0][0] in 'AP')]
+            branches.append((nodes, lits))
+        for combo in _product(R.values(logic), repeat=len(atoms)):
+            v = dict(zip(atoms, combo))
+            refutes = all(R.prop_value(logic, p, v) in D for p in prem) and R.prop_value(logic, con, v) not in D
+            full = any(all(satisfied(logic, R.prop_value(logic, x, v), d) for x, d in nodes) for nodes, _ in branches)
+            lit = any(all(satisfied(logic, R.prop_value(logic, x, v), d) for x, d in lits) for _, lits in branches)
+            vs = ', '.join(f'{A.show(k)}={val}' for k, val in v.items())
+            if refutes and not full:
+                for tag in attribute(tab, 'unsound'):
+                    out.append((f'C03|unsound|{fam}|{tag}',
+                                f'{prover.case_str(case)}: the countermodel {vs} satisfies no open branch (a case was lost)'))
+                break
+            if lit and not refutes:
+                for tag in attribute(tab, 'incomplete'):
+                    out.append((f'C03|incomplete|{fam}|{tag}',
+                                f'{prover.case_str(case)}: {vs} satisfies the literals of an open branch but does not refute the argument'))
+                break
     if tab.valid is True and not want_valid:
         cm = next(R.prop_countermodels(logic, prem, con))
         cms = ', '.join(f'{A.show(k)}={v}' for k, v in cm.items())
@@ -118,7 +168,7 @@ def check_case(case):
 
 def run_exh(shard, acc):
     logic = shard['logic']
-    for i, (prem, con) in enumerate(exhaustive_args(shard['tier'])):
+    for i, (prem, con) in enumerate(exhaustive_args(shard['tier'], logic)):
         if i % shard['n'] != shard['k']:
             continue
         case = prover.mk_case(logic, prem, con)
